@@ -4,6 +4,7 @@
 mod appgen;
 mod common;
 mod costs;
+mod gains;
 mod ledger;
 mod rng;
 
@@ -79,6 +80,20 @@ fn main() {
                 costs::run_case(&format!("K{}-{}", seed, i), &c, &mut s);
                 w.write_all(s.as_bytes()).unwrap();
             }
+        }
+        "gains" => {
+            let mut r = rng::Rng::new(seed);
+            for i in 0..count {
+                let mut cr = r.fork();
+                let c = gains::gen_case(&mut cr);
+                let mut s = String::new();
+                gains::run_case(&format!("G{}-{}", seed, i), &c, &mut s);
+                w.write_all(s.as_bytes()).unwrap();
+            }
+        }
+        "gains-replay" => {
+            let s = common::replay_stdin(gains::parse_case, gains::run_case);
+            w.write_all(s.as_bytes()).unwrap();
         }
         "costs-replay" => {
             let s = common::replay_stdin(costs::parse_case, costs::run_case);
